@@ -82,6 +82,8 @@ Fixpoint dec_stmt (v : wv) : option stmt :=
   | WL [WI 3; WI 0; x] => option_map (fun n => SObs (OLen n)) (un_text x)
   | WL [WI 3; WI 1; x] => option_map (fun n => SObs (OFlash n)) (un_text x)
   | WL [WI 3; WI 2; e] => option_map (fun ex => SObs (OGlyph ex)) (dec_expr e)
+  | WL [WI 3; WI 3; x] => option_map (fun n => SObs (OVal n)) (un_text x)
+  | WL [WI 8; e] => match dec_expr e with Some (EBin op (EName x) ex) => Some (SAug x op ex) | _ => None end   (* x op= ex, sent as x op (ex) *)
   | WL [WI 5; WL a; WL b] => match decs a, decs b with Some x, Some y => Some (SIf x y) | _, _ => None end
   | WL [WI 6; WL a] => option_map SWhile (decs a)
   | WL [WI 7; x; WL a] => match un_text x, decs a with Some n, Some b => Some (SFor n b) | _, _ => None end
@@ -112,12 +114,25 @@ Fixpoint obs_stmt (s : stmt) : list wv :=
   | _ => []
   end.
 Definition obs_block := fix obs_block (b : list stmt) : list wv := match b with [] => [] | x :: r => obs_stmt x ++ obs_block r end.
+(* module level: the globals declared by first assignments (0 = static initialiser, 1 = default value) and the
+   names assigned by the statements that stay at the top level of setup() *)
+Definition enc_global (g : ident * ginit) : wv :=
+  WL [wtext (fst g); WI (match snd g with GStatic _ => 0 | GDefault => 1 end)].
+Fixpoint top_assigns (b : list stmt) : list wv :=
+  match b with
+  | [] => []
+  | SAssign x _ :: r | SAug x _ _ :: r => wtext x :: top_assigns r
+  | _ :: r => top_assigns r
+  end.
 Definition run_env (prog orc : list wv) : wv :=
   match dec_stmts prog, dec_nats orc with
   | Some p, Some o =>
       WL [ wbool (match tblock p [] [] with Some _ => true | None => false end);
            wbool (is_fresh p); enc_outs (firmware_outputs p o); enc_outs (python_outputs p o);
-           WL (match tblock p [] [] with Some (_, _, res, _) => obs_block res | None => [] end) ]
+           WL (match tblock p [] [] with Some (_, _, res, _) => obs_block res | None => [] end);
+           WL [ wbool (split_ok p); enc_outs (sketch_outputs p o);
+                WL (match ttop p [] [] [] with Some (_, _, gs, _, _, _) => map enc_global gs | None => [] end);
+                WL (match ttop p [] [] [] with Some (_, _, _, body, _, _) => top_assigns body | None => [] end) ] ]
   | _, _ => wbad
   end.
 
